@@ -501,6 +501,10 @@ extern int total_queries;
             FAIL(errlabel, CIF_INTERNAL_ERROR); \
         case CIF_NUMB_KIND: \
             _value->as_numb.quoted = (sqlite3_column_int(_stmt, _col_ofs + 1) ? CIF_QUOTED : CIF_NOT_QUOTED); \
+            /* all pointer members must be valid for cif_value_clean() even if a failure interrupts the retrieval */ \
+            _value->as_numb.text = NULL; \
+            _value->as_numb.digits = NULL; \
+            _value->as_numb.su_digits = NULL; \
             GET_COLUMN_STRING(_stmt, _col_ofs + 3, _value->as_numb.text, HANDLER_LABEL(errlabel)); \
             GET_COLUMN_BYTESTRING(_stmt, _col_ofs + 4, _value->as_numb.digits, HANDLER_LABEL(errlabel)); \
             if ((_value->as_numb.text != NULL) && (*(_value->as_numb.text) != 0) && (_value->as_numb.digits != NULL) \
